@@ -136,3 +136,40 @@ Proof.
   destruct (forallb (fun kc => negb (is_nil (snd kc)) && forallb shell_ok (snd kc)) (b_centers b)); [|discriminate].
   destruct (forallb (fun c => smem c (keys (b_centers b))) (b_atom_map b)); [|discriminate]. auto.
 Qed.
+
+(** an accepted basis set is structurally valid: the hypothesis of [basis_nbf_spec] is necessary too *)
+Lemma accepted_structurally_valid b n : basis_validate b = Ok n -> structurally_valid b.
+Proof.
+  intro H. destruct (basis_accepts_only_valid b n H) as [H2 H3]. split.
+  - intros k shells Hin. rewrite forallb_forall in H2. specialize (H2 (k, shells) Hin). simpl in H2.
+    apply andb_true_iff in H2. destruct H2 as [Hne Hok]. split; [destruct shells; [discriminate|congruence]|].
+    intros s Hs. rewrite forallb_forall in Hok. specialize (Hok s Hs). unfold shell_ok in Hok.
+    destruct (shell_check s) as [[]|]; [reflexivity|discriminate].
+  - intros c Hc. rewrite forallb_forall in H3. apply smem_keys. apply H3. exact Hc.
+Qed.
+
+(** BasisSet(...) is accepted with stored count n  iff  it is structurally valid, n is the count implied by the
+    shells, and the supplied nbf is absent or equal to n *)
+Theorem basis_accepted_iff b n : NoDup (keys (b_centers b)) ->
+  (basis_validate b = Ok n <->
+   structurally_valid b /\ n = nbf_spec (b_atom_map b) (b_centers b) /\ (b_nbf b = None \/ b_nbf b = Some n)).
+Proof.
+  intro ND. split.
+  - intro H. pose proof (accepted_structurally_valid b n H) as SV. split; [exact SV|]. apply basis_accepted_count; assumption.
+  - intros [SV [En Hn]]. rewrite basis_nbf_spec by assumption. destruct Hn as [Hn|Hn]; rewrite Hn.
+    + rewrite En. reflexivity.
+    + rewrite <- En, Z.eqb_refl. reflexivity.
+Qed.
+
+(** what a refusal looks like: a validation error, or the KeyError that escapes from a malformed shell / `_calculate_nbf` *)
+Theorem basis_validate_err b k : basis_validate b = Err k -> k = Validation \/ k = PyKeyError.
+Proof.
+  unfold basis_validate. destruct (existsb _ _); [intro H; inversion H; auto|].
+  destruct (forallb (fun kc => negb (is_nil (snd kc)) && forallb shell_ok (snd kc)) (b_centers b)); [|intro H; inversion H; auto].
+  destruct (forallb (fun c => smem c (keys (b_centers b))) (b_atom_map b)); [|intro H; inversion H; auto]. simpl.
+  destruct (calculate_nbf (b_atom_map b) (b_centers b)) as [m|k'] eqn:E.
+  - destruct (b_nbf b) as [v|]; [destruct (v =? m)|]; intro H; inversion H; auto.
+  - intro H; inversion H; subst k'. right. clear H. unfold calculate_nbf in E. revert E. generalize 0 as ret.
+    induction (b_atom_map b) as [|c r IH]; intro ret; simpl; [discriminate|].
+    destruct (dget c (center_count (b_centers b))); [apply IH|intro H; inversion H; reflexivity].
+Qed.
